@@ -45,6 +45,8 @@ type Inventory struct {
 	// sources of nondeterminism that are instrumented but cannot be owned
 	Uncontrolled []string `json:"uncontrolled_sources"`
 	FilesChanged []string `json:"files_changed"`
+	// select statements made deterministic by pass C
+	SelectSites int `json:"select_sites_controlled"`
 }
 
 var (
@@ -149,6 +151,31 @@ func main() {
 				fail("write %s: %v", fn, err)
 			}
 			inv.FilesChanged = append(inv.FilesChanged, rel(fn))
+		}
+	}
+	// pass C works on the rewritten files
+	hasSelect := false
+	for _, u := range inv.Uncontrolled {
+		if strings.Contains(u, "select-with-several-cases") {
+			hasSelect = true
+		}
+	}
+	if hasSelect {
+		selectPass(root)
+		if inv.SelectSites > 0 {
+			// only the selects pass C could not take stay uncontrolled
+			var rest []string
+			skipped := len(inv.Uncontrolled)
+			for _, u := range inv.Uncontrolled {
+				if !strings.Contains(u, "select-with-several-cases") {
+					rest = append(rest, u)
+				}
+			}
+			nSel := skipped - len(rest)
+			for i := 0; i < nSel-inv.SelectSites; i++ {
+				rest = append(rest, "select-with-several-cases (labelled, nested or unusual: left to the runtime's choice)")
+			}
+			inv.Uncontrolled = rest
 		}
 	}
 	for _, l := range []*[]string{&inv.MapSites, &inv.KeysSites, &inv.YieldSites, &inv.GoStarts, &inv.MutexSites, &inv.Unsupported, &inv.Uncontrolled, &inv.FilesChanged} {
